@@ -24,67 +24,48 @@ fn ctl_ty(ctx: &Ctx, l: Option<usize>) -> Option<u8> {
     })
 }
 
-fn add_b<F: Fam>(
-    b: &mut DispatcherBuilder<'static, 'static>,
-    ctx: &Arc<Ctx>,
+struct AddBatch<'x> {
+    b: &'x mut DispatcherBuilder<'static, 'static>,
+    ctx: &'x Arc<Ctx>,
     sid: usize,
     times: u8,
     multi: bool,
     hint: u8,
     inner: DispatcherBuilder<'static, 'static>,
-    name: &str,
-    deps: &[&str],
-) {
-    if multi {
-        let c = PlanCtl::<F> { ctx: ctx.clone(), sid, times, _m: PhantomData };
-        b.add_batch::<MultiDispatcher<PlanCtl<F>>>(MultiDispatcher::new(c), inner, name, deps);
-    } else {
-        let c = Ctl::<F> { ctx: ctx.clone(), sid, times, hint, _m: PhantomData };
-        b.add_batch::<Ctl<F>>(c, inner, name, deps);
-    }
+    name: &'x str,
+    deps: &'x [&'x str],
 }
 
-macro_rules! pick_w {
-    ($w:expr, $r:literal, $($args:expr),*) => {
-        match $w {
-            Some(0) => add_b::<FRW<$r, 0>>($($args),*),
-            Some(1) => add_b::<FRW<$r, 1>>($($args),*),
-            Some(2) => add_b::<FRW<$r, 2>>($($args),*),
-            Some(3) => add_b::<FRW<$r, 3>>($($args),*),
-            None => add_b::<FR<$r>>($($args),*),
-            _ => unreachable!(),
+impl FamVisitor for AddBatch<'_> {
+    fn visit<F: Fam>(self) {
+        if self.multi {
+            let c = PlanCtl::<F> { ctx: self.ctx.clone(), sid: self.sid, times: self.times, _m: PhantomData };
+            self.b.add_batch::<MultiDispatcher<PlanCtl<F>>>(MultiDispatcher::new(c), self.inner, self.name, self.deps);
+        } else {
+            let c = Ctl::<F> { ctx: self.ctx.clone(), sid: self.sid, times: self.times, hint: self.hint, _m: PhantomData };
+            self.b.add_batch::<Ctl<F>>(c, self.inner, self.name, self.deps);
         }
-    };
+    }
 }
 
-fn add_batch_dyn(
-    r: Option<u8>,
-    w: Option<u8>,
-    b: &mut DispatcherBuilder<'static, 'static>,
-    ctx: &Arc<Ctx>,
+struct AddTyped<'x> {
+    b: &'x mut DispatcherBuilder<'static, 'static>,
+    ctx: &'x Arc<Ctx>,
     sid: usize,
-    times: u8,
-    multi: bool,
     hint: u8,
-    inner: DispatcherBuilder<'static, 'static>,
-    name: &str,
-    deps: &[&str],
-) {
-    match r {
-        Some(0) => pick_w!(w, 0, b, ctx, sid, times, multi, hint, inner, name, deps),
-        Some(1) => pick_w!(w, 1, b, ctx, sid, times, multi, hint, inner, name, deps),
-        Some(2) => pick_w!(w, 2, b, ctx, sid, times, multi, hint, inner, name, deps),
-        Some(3) => pick_w!(w, 3, b, ctx, sid, times, multi, hint, inner, name, deps),
-        None => match w {
-            Some(0) => add_b::<FW<0>>(b, ctx, sid, times, multi, hint, inner, name, deps),
-            Some(1) => add_b::<FW<1>>(b, ctx, sid, times, multi, hint, inner, name, deps),
-            Some(2) => add_b::<FW<2>>(b, ctx, sid, times, multi, hint, inner, name, deps),
-            Some(3) => add_b::<FW<3>>(b, ctx, sid, times, multi, hint, inner, name, deps),
-            None => add_b::<F0>(b, ctx, sid, times, multi, hint, inner, name, deps),
-            _ => unreachable!(),
-        },
-        _ => unreachable!(),
+    name: &'x str,
+    deps: &'x [&'x str],
+}
+
+impl FamVisitor for AddTyped<'_> {
+    fn visit<F: Fam>(self) {
+        self.b.add(TypedSys::<F> { ctx: self.ctx.clone(), sid: self.sid, hint: self.hint, _m: PhantomData }, self.name, self.deps);
     }
+}
+
+/// Can this registration be a typed system (library data from the static family)?
+pub fn typed_ok(ctx: &Ctx, reads: &[usize], writes: &[usize]) -> bool {
+    reads.len() <= 1 && writes.len() <= 1 && reads.iter().chain(writes.iter()).all(|&l| crate::plan::ctl_ok(&ctx.resmap[l])) && (reads.is_empty() || writes.is_empty() || reads[0] != writes[0])
 }
 
 /// Register everything of `regs` on a fresh builder. `sid` runs in depth-first order, exactly
@@ -105,12 +86,17 @@ pub fn make_builder_cb(
     for (ri, r) in regs.iter().enumerate() {
         match r {
             Reg::Barrier => b.add_barrier(),
-            Reg::Sys { name, deps, reads, writes, hint, expect } => {
-                let mut s = DynSys::new(ctx, *sid, reads, writes, *hint);
-                s.acc.expect = *expect;
-                *sid += 1;
+            Reg::Sys { name, deps, reads, writes, hint, expect, typed } => {
                 let d: Vec<&str> = deps.iter().map(|x| x.as_str()).collect();
-                b.add(s, name, &d);
+                if *typed && typed_ok(ctx, reads, writes) {
+                    let v = AddTyped { b: &mut b, ctx, sid: *sid, hint: *hint, name, deps: &d };
+                    pick_fam(ctl_ty(ctx, reads.first().copied()), ctl_ty(ctx, writes.first().copied()), v);
+                } else {
+                    let mut s = DynSys::new(ctx, *sid, reads, writes, *hint);
+                    s.acc.expect = *expect;
+                    b.add(s, name, &d);
+                }
+                *sid += 1;
             }
             Reg::Tl { reads, writes } => {
                 let s = TlSys { ctx: ctx.clone(), sid: *sid, reads: reads.clone(), writes: writes.clone(), _nosend: Rc::new(()) };
@@ -128,7 +114,8 @@ pub fn make_builder_cb(
                 *sid += 1;
                 let ib = make_builder(ctx, inner, sid);
                 let d: Vec<&str> = deps.iter().map(|x| x.as_str()).collect();
-                add_batch_dyn(ctl_ty(ctx, *ctl_read), ctl_ty(ctx, *ctl_write), &mut b, ctx, my, *times, *multi, *hint, ib, name, &d);
+                let v = AddBatch { b: &mut b, ctx, sid: my, times: *times, multi: *multi, hint: *hint, inner: ib, name, deps: &d };
+                pick_fam(ctl_ty(ctx, *ctl_read), ctl_ty(ctx, *ctl_write), v);
             }
         }
         after(&b, ri);
@@ -285,7 +272,9 @@ pub fn identify(ctx: &Arc<Ctx>, disp: &mut Dispatcher<'static, 'static>, world: 
     ctx.mode.store(1, Ordering::SeqCst);
     ctx.events.lock().unwrap().clear();
     let (shape, tl) = disp.verif_shape();
+    ctx.dispatching.store(true, Ordering::SeqCst);
     disp.dispatch_seq(world);
+    ctx.dispatching.store(false, Ordering::SeqCst);
     ctx.mode.store(0, Ordering::SeqCst);
     let evs = std::mem::take(&mut *ctx.events.lock().unwrap());
     let mut order_of = |parent: Option<usize>| -> Vec<usize> {
